@@ -246,3 +246,11 @@ def run(ctx, w):
     # the commands of this property must first of all be DECODED as specified (selector values, parameter slots, finals)
     from rules import c03
     shared.embed(ctx, w, c03.dispatch_rules)
+    # "re-wrapped to the new size but never altered" / "on return all geometry invariants hold": the structural clauses of the
+    # re-layout (C10) and the trim request after every growth of the line vector (C13.L3) are conditions of this property too
+    from rules import c10, c13, c14
+    shared.embed(ctx, w, c10.run)
+    S_, R_ = shared.screen(w), shared.roles(w)
+    T_ = c14.Trim(w, S_, R_)
+    if T_.ok:
+        c13.growth_flag_rule(ctx, w, S_, R_, T_, "P13")
